@@ -465,7 +465,7 @@ func (l *Linter) resolveFileInclusion(
 ) []ast.Statement {
 
 	var statements []ast.Statement
-	module, err := ctx.Restore().Resolver().Resolve(include)
+	module, err := ctx.Resolver().Resolve(include)
 	if err != nil {
 		e := &LintError{
 			Severity: ERROR,
